@@ -52,6 +52,18 @@ proof('C07',
       'multi-victim loop under a loop invariant.',
       'DESIGN.md 5 C07')
 
+proof('C08',
+      'The real methods of klepto._archives.cache (load, dump, sync, archived, open, drop, the archive property), '
+      'executed symbolically from an arbitrary (mem, bound archive, parked archive): each sentence of C08 is a '
+      'postcondition discharged on every path - dump()/dump(k..) = archive overlaid by the cache (only the given '
+      'resident keys), load likewise in the other direction, sync and sync(clear=True), the swap logic of '
+      'archived(flag)/open/drop, nothing changes while archiving is off, a null archive stays empty, inherited '
+      'dict operations are not overridden. The same run proves that every real method refines the contract '
+      '(contracts/kcache.py) that the wrapper proofs of C01 C02 C05 C06 C07 C15 C16 use at call sites.',
+      'DESIGN.md 5 C08, Appendix B',
+      BASE_A + ' Archive objects are abstracted by the dict contract (lossless) or the discard contract (null); how '
+      'far each backend meets it is C03. Key arguments: 0, 1 and 2 keys (unrolled), not a symbolic number.')
+
 proof('C15',
       'Per wrapper and path: exactly one of hit/miss/load moves by exactly one on a normal return, classified by '
       'where the result came from; info() returns the five CacheInfo fields (order read from tools.py); clear() '
@@ -74,7 +86,6 @@ for _p, _r in {
     'C03': 'check not built yet',
     'C04': 'check not built yet',
 
-    'C08': 'check not built yet',
     'C09': 'check not built yet',
     'C10': 'check not built yet',
     'C11': 'check not built yet',
